@@ -476,6 +476,19 @@ def c02_7(ctx: Ctx) -> RuleResult:
             if p == "mask":
                 mask_p = ("param", f.qualname, p)
         if mask_p is None:
+            # the mask read from the (frozen) configuration inside the function instead of being handed in
+            for s_ in subterms(t):
+                if s_[0] == "attr" and ends_with_attrs(s_, "variables", "mask") and root_of(s_)[0] == "param":
+                    mask_p = s_
+                    break
+            if mask_p is None:
+                for n_ in nodes_in(f, ast.Attribute):
+                    if n_.attr == "mask" and isinstance(n_.ctx, ast.Load):
+                        t_ = X.at(f, n_)
+                        if t_[0] == "attr" and ends_with_attrs(t_, "variables", "mask") and root_of(t_)[0] == "param":
+                            mask_p = t_
+                            break
+        if mask_p is None:
             raise AnalysisError("mask parameter not found in the gradient computation")
         # is this construction reached only with / without a mask?
         from ..util import bool_nnf, path_condition
